@@ -1099,3 +1099,91 @@ theorem Rules.eq_iff_ext {a b : Rules} (ha : Rules.NodupKeys a) (hb : Rules.Nodu
     exact ⟨fun r v hv => by rw [← h r]; exact hv, fun r v hv => by rw [h r]; exact hv⟩
 
 end Gimli.Unwind
+
+namespace Gimli.Spec.Unwind
+open Gimli Gimli.Cfi Gimli.Unwind
+
+/-- the errors a capacity-instrumented step can raise -/
+def IsStepError (e : Err) : Prop := IsInvalid e ∨ e = .rStackFull ∨ e = .rTooManyRegisterRules
+
+theorem stepB_error_kinds {p : Params} {R N : Cap} {s : State} {i : Instr} {e : Err}
+    (h : stepB p R N s i = .error e) : IsStepError e := by
+  unfold stepB at h
+  cases hs : step p s i with
+  | error e' =>
+    rw [hs] at h
+    cases h
+    exact Or.inl (step_error_invalid hs)
+  | ok q =>
+    obtain ⟨s1, r1⟩ := q
+    rw [hs] at h
+    simp only at h
+    split at h
+    · cases h; exact Or.inr (Or.inl rfl)
+    · split at h
+      · cases h; exact Or.inr (Or.inr rfl)
+      · cases h
+
+theorem exec_error_kinds (p : Params) (R N : Cap) (endAddr : Nat) (is : List Instr) (bad : Option Err) :
+    ∀ (s : State) (e : Err), (exec p R N endAddr s is bad).2 = .error e → IsStepError e ∨ bad = some e := by
+  induction is with
+  | nil =>
+    intro s e h
+    cases bad with
+    | none => simp [exec] at h
+    | some e' => simp only [exec] at h; cases h; exact Or.inr rfl
+  | cons i is ih =>
+    intro s e h
+    rw [exec] at h
+    cases hB : stepB p R N s i with
+    | error e' => rw [hB] at h; cases h; exact Or.inl (stepB_error_kinds hB)
+    | ok q =>
+      obtain ⟨s1, r1⟩ := q
+      rw [hB] at h
+      cases r1 with
+      | none => exact ih _ _ h
+      | some row => exact ih _ _ h
+
+/-- every way a Spec table can fail: an invalid instruction, a storage limit, or an undecodable
+instruction at the end of the CIE's or the FDE's stream -/
+theorem table_error_kinds (p : Params) (R N : Cap) (cie fde : List Instr) (cieBad fdeBad : Option Err)
+    (initial len : Nat) (e : Err) (h : (table p R N cie cieBad fde fdeBad initial len).2 = .error e) :
+    IsStepError e ∨ cieBad = some e ∨ fdeBad = some e := by
+  unfold table at h
+  simp only at h
+  cases h1 : (exec p R N 0 { loc := 0, cur := RuleSet.initial, stack := [], init := none } cie cieBad).2 with
+  | error e' =>
+    rw [h1] at h
+    cases h
+    rcases exec_error_kinds p R N 0 cie cieBad _ _ h1 with h | h
+    · exact Or.inl h
+    · exact Or.inr (Or.inl h)
+  | ok s1 =>
+    rw [h1] at h
+    simp only at h
+    split at h
+    · cases h; exact Or.inl (Or.inr (Or.inl rfl))
+    · cases h2 : (exec p R N (fdeEnd p initial len) { s1 with loc := initial, init := some s1.cur.regs } fde fdeBad).2 with
+      | error e' =>
+        rw [h2] at h
+        simp only [Except.map] at h
+        cases h
+        rcases exec_error_kinds p R N _ fde fdeBad _ _ h2 with h | h
+        · exact Or.inl h
+        · exact Or.inr (Or.inr h)
+      | ok s' => rw [h2] at h; simp [Except.map] at h
+
+/-- `remember_state` then `restore_state` is the identity on rule sets -/
+theorem remember_restore (p : Params) (s : State) :
+    ∃ s1, step p s .rememberState = .ok (s1, none) ∧ step p s1 .restoreState = .ok (s, none) :=
+  ⟨{ s with stack := s.cur :: s.stack }, rfl, rfl⟩
+
+/-- `DW_CFA_restore r` in an FDE puts the column back to what the CIE left, whatever happened since -/
+theorem restore_is_initial (p : Params) (s : State) (im : RegMap) (r : Reg) (h : s.init = some im) :
+    ∃ s1, step p s (.restore r) = .ok (s1, none) ∧ s1.cur.regs r = im r ∧
+      (∀ x, x ≠ r → s1.cur.regs x = s.cur.regs x) ∧ s1.cur.cfa = s.cur.cfa := by
+  refine ⟨setReg s r (im r), by simp [step, h], by simp [setReg, RegMap.update], ?_, rfl⟩
+  intro x hx
+  simp [setReg, RegMap.update, hx]
+
+end Gimli.Spec.Unwind
